@@ -143,19 +143,26 @@ func ctxToHeaders(ctx freighter.Context) http.Header {
 
 type clientStream[RQ, RS freighter.Payload] struct {
 	streamCore[RS, RQ]
+	// sendErr is the first error of the sending side; it belongs to the sending goroutine
+	// alone and never replaces the terminal result Receive has cached.
+	sendErr    error
 	sendClosed bool
 }
 
 // Send implements the freighter.ClientStream interface.
 func (s *clientStream[RQ, RS]) Send(req RQ) error {
-	if s.peerCloseErr != nil {
+	if s.terminal() != nil {
 		return freighter.EOF
 	}
 	if s.sendClosed {
 		return freighter.ErrStreamClosed
 	}
-	s.peerCloseErr = s.send(WSMessage[RQ]{Type: WSMessageTypeData, Payload: req})
-	return s.peerCloseErr
+	if s.sendErr != nil {
+		// as before, once a send has failed the stream is over for the sender
+		return freighter.EOF
+	}
+	s.sendErr = s.send(WSMessage[RQ]{Type: WSMessageTypeData, Payload: req})
+	return s.sendErr
 }
 
 func (s *clientStream[RQ, RS]) Receive() (RS, error) {
@@ -168,7 +175,7 @@ func (s *clientStream[RQ, RS]) Receive() (RS, error) {
 
 // CloseSend implements the freighter.ClientStream interface.
 func (s *clientStream[RQ, RS]) CloseSend() error {
-	if s.peerCloseErr != nil || s.sendClosed {
+	if s.terminal() != nil || s.sendClosed {
 		return nil
 	}
 	s.sendClosed = true
